@@ -212,6 +212,10 @@ def _platforms(ctx):
 
 
 def run(ctx):
+    if ctx.shard == 0:  # the repository's own pinned examples as one more workload (outcomes ignored)
+        from ..repotests import run_repo_tests
+
+        run_repo_tests(ctx, ("tags",))
     _names(ctx, 3000 if ctx.tier == "quick" else 40000)
     if ctx.shard == 0:
         _platforms(ctx)
@@ -221,6 +225,11 @@ def run(ctx):
 
 
 def replay(ctx, case):
+    if isinstance(case, dict) and case.get("kind") == "repo-test":
+        from ..repotests import run_repo_tests
+
+        run_repo_tests(ctx, nodeid=case["nodeid"])
+        return
     import dep_logic.tags.tags as T
     from dep_logic.tags import EnvSpec, Platform
 
